@@ -1,23 +1,36 @@
 REG = dict(
     timeout=dict(quick=900, thorough=3000),
     trusted_base=[
-        "CITED, NOT PROVED: Steck (1971) determinant for the rectangle probability of uniform order statistics (evaluated exactly "
-        "in Q by OpdaModel/Steck.lean; agrees with scipy.stats.kstwo to 1e-15 on the ks tables)",
+        "PROVED (no longer trusted): the rectangle probability P[alpha_i <= U_(i) <= beta_i for all i] of n independent uniforms is the "
+        "rational returned by Opda.RectProb.coverage (driver op band.rect), for all rational level lists in [0,1] "
+        "(Props/C01: rect_coverage_is_sum_over_assignments, rect_coverage_is_volume, rect_coverage_is_volume_order_statistics, "
+        "band_coverage_is_rect_coverage). Steck's (1971) determinant (OpdaModel/Steck.lean, identity cited, not proved) is only a "
+        "second evaluator: it must return the same rational on every table (a difference is reported as a correspondence failure)",
+        "CITED, NOT PROVED: probability-integral transform: for a continuous F other than the uniform one, F(Y_j) are independent "
+        "uniforms (the reduction band_contains_iff_box itself is proved for every continuous non-decreasing F)",
         "CITED, NOT PROVED: Dvoretzky-Kiefer-Wolfowitz inequality with Massart's constant (named hypothesis hDKW of "
-        "dkw_coverage_of_massart); probability-integral transform F(Y_(i)) ~ uniform order statistics for continuous F",
+        "dkw_coverage_of_massart)",
         "the law Beta(cN,(1-c)N+1) of the simulated critical value's coverage (ld methods) and scipy.stats.beta.ppf for its quantiles",
-        "level tables are read off the returned distributions through their public cdf (doubles taken as exact rationals)",
+        "level tables are read off the returned distributions through their public cdf (doubles taken as exact rationals); the "
+        "hypotheses of the theorems are checked on every table before it is evaluated: levels in [0,1], non-decreasing, "
+        "lower level 0 below the sample, upper level 1 at the largest observation",
+        "large n (> 80): Durbin / Marsaglia-Tsang-Wang matrix algorithm for P[D_n <= eps], cross-checked against scipy.stats.kstwo",
     ],
     assumptions=["continuous F (no ties)", "n_jobs=1 in the check (n_jobs independence is C14)"],
 )
 TEXT = dict(
     level="Partial proof. Proved (universal): band contains every continuous non-decreasing F everywhere iff F passes through the box "
-          "L_i <= F(y_(i)) <= U_{i-1} at the order statistics (so coverage is one rectangle probability for all F); for dkw/ks tables "
-          "the box is the Kolmogorov distance <= eps; the DKW radius solves 2exp(-2n eps^2)=1-c, is monotone in c and antitone in n; "
-          "dkw coverage >= c conditional on the cited DKW-Massart inequality; ld box <-> test statistic. Evaluated on every run, not "
-          "proved: the rectangle probability itself, exactly in Q (Steck) on the code's own level tables: dkw >= c, ks = c +- 1e-12, "
-          "ld inside the stated Beta interval, for n <= 40 (80 thorough), confidences incl. 0 and 1, finite and infinite bounds.",
-    note="The headline probability statement rests on two cited theorems (Steck; DKW-Massart) and on the exact evaluation, not on a "
-         "Lean proof; the reduction to the box, the dkw radius and the ld test duality are Lean theorems. n beyond 80 is not evaluated.",
-    technique="Lean 4 proof of the reduction (order-statistic box) + exact rational evaluation of the boundary-crossing probability on the code's tables",
+          "L_i <= F(y_(i)) <= U_{i-1} at the order statistics (so coverage is one rectangle probability for all F); the exact-Q evaluator "
+          "band.rect (dynamic programme over the cells between levels) equals the probability of that rectangle under the product "
+          "measure of n independent uniforms, hence the probability that the band contains the uniform CDF everywhere "
+          "(finite combinatorics + Measure.pi; no citation); for dkw/ks tables the box is the Kolmogorov distance <= eps; the DKW "
+          "radius solves 2exp(-2n eps^2)=1-c, is monotone in c and antitone in n; dkw coverage >= c conditional on the cited "
+          "DKW-Massart inequality; ld box <-> test statistic. Evaluated on every run with the proved evaluator on the code's own "
+          "level tables: dkw >= c, ks = c +- 1e-12, ld inside the stated Beta interval, for n <= 40 (80 thorough), confidences incl. 0 "
+          "and 1, finite and infinite bounds; Steck's determinant is evaluated alongside and must agree exactly.",
+    note="The headline probability statement now rests on Lean theorems for the rectangle probability (evaluated per table, n <= 80) "
+         "and on the cited probability-integral transform for non-uniform F; DKW-Massart is only needed for the universal dkw claim "
+         "beyond the evaluated tables. n beyond 80 is evaluated by the Durbin matrix oracle for dkw/ks only.",
+    technique="Lean 4 proof of the reduction (order-statistic box) and of the exact evaluator (cell decomposition of the unit cube, "
+              "product measure) + exact rational evaluation of the boundary-crossing probability on the code's tables",
 )
